@@ -61,9 +61,15 @@ func genValue(t *rapid.T) float64 {
 	}
 }
 
+// wellKnownTypes: point types that the system itself gives a meaning to, and
+// words that name wire fields -- an encoder that treats one of them specially
+// loses it.
+var wellKnownTypes = []string{data.PointTypeNodeType, data.PointTypeTombstone, data.PointTypeDescription, data.PointTypeValue,
+	data.PointTypeNodeID, "id", "parent", "hash", "type", "key", "text", "time", "origin", "data", "points", "edgePoints", "index"}
+
 func genPoint(t *rapid.T) data.Point {
 	return data.Point{
-		Type:      gen.Type().Draw(t, "type"),
+		Type:      rapid.OneOf(gen.Type(), gen.Type(), rapid.SampledFrom(wellKnownTypes)).Draw(t, "type"),
 		Key:       gen.Key().Draw(t, "key"),
 		Time:      genTime(t),
 		Value:     genValue(t),
